@@ -210,7 +210,7 @@ pub enum EcB {
     Raise { event: Seq<u8> },
     Cancel { send_id: Seq<u8>, send_id_expr: Data },
     Assign { expr: Data, location: Data },
-    Send,
+    Send(SendV),
 }
 
 pub open spec fn ecb(v: EcV) -> EcB {
@@ -223,7 +223,7 @@ pub open spec fn ecb(v: EcV) -> EcB {
         EcV::Raise(x) => EcB::Raise { event: sb(x.event) },
         EcV::Cancel(x) => EcB::Cancel { send_id: sb(x.send_id), send_id_expr: x.send_id_expr },
         EcV::Assign(x) => EcB::Assign { expr: x.expr, location: x.location },
-        EcV::Send(x) => EcB::Send,
+        EcV::Send(x) => EcB::Send(sendv(x)),
     }
 }
 
@@ -659,4 +659,23 @@ pub proof fn lemma_map_empty<A, B>(s: Seq<A>, f: spec_fn(A) -> B)
         s.map_values(f) == Seq::<B>::empty(),
 {
     assert(s.map_values(f) =~= Seq::<B>::empty());
+}
+
+/// an executable-content element: type tag, then the record of that kind (tags above 8 are written by no FsmWriter)
+pub open spec fn d_ec(s: Seq<u8>) -> Dec<EcB> {
+    match d_uint(s) {
+        Dec::Ok(t, r) => {
+            let k = t as u8;
+            if k == 0 { d_if(r) } else if k == 1 { d_expression(r) } else if k == 2 { d_script(r) } else if k == 3 { d_log(r) }
+            else if k == 4 { d_for_each(r) } else if k == 5 {
+                match d_send(r) {
+                    Dec::Ok(v, r2) => Dec::Ok(EcB::Send(v), r2),
+                    Dec::Fail => Dec::Fail,
+                    Dec::Unknown => Dec::Unknown,
+                }
+            } else if k == 6 { d_raise(r) } else if k == 7 { d_cancel(r) } else if k == 8 { d_assign(r) } else { Dec::Unknown }
+        },
+        Dec::Fail => Dec::Fail,
+        Dec::Unknown => Dec::Unknown,
+    }
 }
